@@ -206,6 +206,16 @@ func (publisher *Publisher) Places() map[string]*place {
 
 		// Get all of the unique place names.
 		for placeTag, node := range publisher.doc.Places() {
+			// When living individuals are hidden the places they have been
+			// must be as well, otherwise there is a page (and a name in the
+			// list of places) for each place only they have been to.
+			if publisher.options.LivingVisibility == LivingVisibilityHide {
+				individual := individualForNode(publisher.doc, node)
+				if individual != nil && individual.IsLiving() {
+					continue
+				}
+			}
+
 			prettyName := prettyPlaceName(placeTag.Value())
 
 			if prettyName == "" {
